@@ -533,6 +533,37 @@ func MetaText(pairs [][2]string) string {
 type TextOpts struct {
 	Underscore bool   // always write _ before symbols
 	Sep        string // between instances
+	UnicodeAcc bool   // write accidentals of roots and basses with the unicode signs
+}
+
+func uni(s string, on bool) string {
+	if !on {
+		return s
+	}
+	return strings.NewReplacer("#", "♯", "b", "♭").Replace(s)
+}
+
+// uniDegree rewrites only the accidental that follows the number.
+func uniDegree(s string, on bool) string {
+	if !on || len(s) == 0 {
+		return s
+	}
+	switch s[len(s)-1] {
+	case '#':
+		return s[:len(s)-1] + "♯"
+	case 'b':
+		return s[:len(s)-1] + "♭"
+	}
+	return s
+}
+
+// uniNote rewrites the accidental of a note name (the letter B stays a letter).
+func uniNote(n theory.Note, on bool) string {
+	s := n.String()
+	if !on || len(s) < 2 {
+		return s
+	}
+	return s[:1] + uni(s[1:], true)
 }
 
 // DegreeTextPiece renders the piece in degree notation. ok=false if some
@@ -545,10 +576,10 @@ func (p Piece) DegreeTextPiece(o TextOpts) (string, bool) {
 			if !DegreeTextExpressible(c.Deg) || (c.Bass != nil && !DegreeTextExpressible(*c.Bass)) {
 				return "", false
 			}
-			b.WriteString(DegreeText(c.Deg))
+			b.WriteString(uniDegree(DegreeText(c.Deg), o.UnicodeAcc))
 			b.WriteString(SymbolText(c.Symbol, o.Underscore))
 			if c.Bass != nil {
-				b.WriteString("/" + DegreeText(*c.Bass))
+				b.WriteString("/" + uniDegree(DegreeText(*c.Bass), o.UnicodeAcc))
 			}
 		} else {
 			b.WriteString("R")
@@ -587,14 +618,14 @@ func (p Piece) SyllableTextPiece(startKey string, o TextOpts) (string, bool) {
 			if !ok {
 				return "", false
 			}
-			b.WriteString(root.String())
+			b.WriteString(uniNote(root, o.UnicodeAcc))
 			b.WriteString(SymbolText(c.Symbol, o.Underscore))
 			if c.Bass != nil {
 				bn, ok := NoteFor(root, *c.Bass)
 				if !ok {
 					return "", false
 				}
-				b.WriteString("/" + bn.String())
+				b.WriteString("/" + uniNote(bn, o.UnicodeAcc))
 			}
 		} else {
 			b.WriteString("R")
@@ -662,6 +693,19 @@ func RandValues(r *rand.Rand) []Frac {
 			return vs
 		}
 	}
+}
+
+// ManyFractions draws 5..9 fractions with large, mostly distinct denominators (their product
+// exceeds 64 bits, their sum stays small).
+func ManyFractions(r *rand.Rand) []Frac {
+	dens := []uint64{960, 1920, 1000, 1001, 1024, 999, 997, 3840, 10007, 4096, 729, 625, 2401, 1331}
+	n := 5 + r.Intn(5)
+	var vs []Frac
+	for i := 0; i < n; i++ {
+		d := dens[r.Intn(len(dens))]
+		vs = append(vs, Frac{uint64(1 + r.Intn(int(d))), d})
+	}
+	return vs
 }
 
 // HalfwayValues are value lists whose exact tick count at T=960 is k+1/2.
